@@ -81,6 +81,15 @@ pub fn run(ctx: &mut Ctx, _replay: Option<&[String]>) {
                     let tags = [if bps == 3 { "8psk" } else { "bpsk" }, if pat.is_some() { "punctured" } else { "unpunctured" },
                         if inter == 0 { "no-interleaver" } else if inter > 0 { "interleaver-forward" } else { "interleaver-backward" }];
                     ctx.emit(&input, &format!("{} {}", head, vecs.join(" ")), pat.is_some() || inter != 0, &tags);
+                    // (i-c) LLR scale at 60 dB (noise ~1e-3 of the symbol distance): the magnitudes are those of the noiseless chain with
+                    // sigma from (Eb/N0, rate after puncturing, bits per symbol) -- also covers 8PSK, where the noise cannot be read off the LLRs
+                    if let Some(v) = log.lock().unwrap().first() {
+                        let fl: Vec<String> = v.iter().map(|&x| hx(x)).collect();
+                        ctx.emit(&format!("c12 scale {} {} {} {} {}", sm(h), if bps == 3 { "P" } else { "B" },
+                            pat.as_ref().map(|p| bools(p.iter().copied())).unwrap_or("-".into()),
+                            if inter > 0 { format!("+{}", inter) } else { inter.to_string() }, hx(60.0)),
+                            &fl.join(","), true, &[if bps == 3 { "llr-scale-8psk" } else { "llr-scale-bpsk" }]);
+                    }
                     let _ = k;
                 }
             }
@@ -148,6 +157,44 @@ pub fn run(ctx: &mut Ctx, _replay: Option<&[String]>) {
         let lag1 = xs.windows(2).map(|w| (w[0] - mean) * (w[1] - mean)).sum::<f64>() / (nn - 1.0);
         ctx.emit(&format!("c12 noise {} {} 1 {}", k, n, hx(ebn0 as f64)),
             &format!("{} {} {} {} {}", hx(sigma), hx(nn), hx(mean), hx(var), hx(lag1)), true, &["noise-statistics-bpsk"]);
+    }
+    // (iii) the AWGN channel itself, real and complex: mean, variance, Re/Im covariance, lag-1 covariances, 4th moment (Gaussian: 3 sigma^4)
+    {
+        use ldpc_toolbox::rand::{Rng as LRng, SeedableRng};
+        use ldpc_toolbox::simulation::channel::{AwgnChannel, Channel};
+        use num_complex::Complex;
+        let nsamp = ctx.scale(200_000, 2_000_000);
+        for (i, sigma) in [0.05f64, 0.7, 3.0].into_iter().enumerate() {
+            let ch = AwgnChannel::new(sigma);
+            let mut r = LRng::seed_from_u64(ctx.seed * 1000 + i as u64);
+            // complex: non-zero symbols, the noise is what is added
+            let base: Vec<Complex<f64>> = (0..nsamp).map(|j| Complex::new(((j % 3) as f64) - 1.0, ((j % 5) as f64) * 0.5)).collect();
+            let mut y = base.clone();
+            ch.add_noise(&mut r, &mut y);
+            let re: Vec<f64> = y.iter().zip(&base).map(|(a, b)| a.re - b.re).collect();
+            let im: Vec<f64> = y.iter().zip(&base).map(|(a, b)| a.im - b.im).collect();
+            let base_r: Vec<f64> = (0..nsamp).map(|j| if j % 2 == 0 { 1.0 } else { -1.0 }).collect();
+            let mut yr = base_r.clone();
+            ch.add_noise(&mut r, &mut yr);
+            let rr: Vec<f64> = yr.iter().zip(&base_r).map(|(a, b)| a - b).collect();
+            let st = |x: &[f64]| -> (f64, f64, f64, f64) {
+                let n = x.len() as f64;
+                let m = x.iter().sum::<f64>() / n;
+                let v = x.iter().map(|a| (a - m) * (a - m)).sum::<f64>() / n;
+                let l1 = x.windows(2).map(|w| (w[0] - m) * (w[1] - m)).sum::<f64>() / (n - 1.0);
+                let m4 = x.iter().map(|a| (a - m).powi(4)).sum::<f64>() / n;
+                (m, v, l1, m4)
+            };
+            let (mre, vre, lre, qre) = st(&re);
+            let (mim, vim, lim, qim) = st(&im);
+            let (mr, vr, lr, qr) = st(&rr);
+            let cov = re.iter().zip(&im).map(|(a, b)| (a - mre) * (b - mim)).sum::<f64>() / nsamp as f64;
+            // Re of sample j against Im of sample j+1 and Im of j against Re of j+1 (consecutive draws of the generator)
+            let cross1 = im.iter().zip(re.iter().skip(1)).map(|(a, b)| (a - mim) * (b - mre)).sum::<f64>() / (nsamp as f64 - 1.0);
+            ctx.emit(&format!("c12 awgn {} {}", hx(sigma), nsamp),
+                &[mre, vre, lre, qre, mim, vim, lim, qim, cov, cross1, mr, vr, lr, qr].iter().map(|&x| hx(x)).collect::<Vec<_>>().join(" "),
+                true, &["awgn-channel-statistics"]);
+        }
     }
     set_workers(1024);
 }
